@@ -395,6 +395,9 @@ def sigma1(model, profile='quick'):
             macros += [fid, [['rm_file', {'udf_path': op[1]['udf_path']}] for op in fid]]
         pt = grow_pt_step(cfg)
         macros += [pt, shrink_pt_step(pt)]
+    if profile == 'reopen' and model.generation >= 1:
+        # after a reopen: edits that make the root directory and the path tables grow across a sector / 4 KiB boundary
+        macros += [grow_dir_step(cfg, '/'), grow_pt_step(cfg)]
     out = []
     seen = set()
     for step in cand + macros:
@@ -540,6 +543,39 @@ def chain_dirs(cfg, n, isolen, order='lifo', prefix='P', jlen=4, ulen=4):
     return adds + rms
 
 
+def chain_pt_exact(cfg):
+    """
+    Directories whose path table records add up to *exactly* 4096 bytes (root record 10 + 4086), then one more (the
+    table grows to two more sectors), its removal (back to exactly 4096), the same add again (must grow again), ...
+    Returns (ops, index of the first prefix worth judging).
+    """
+    lvl = cfg.get('level', 1)
+    adds = []
+    if lvl == 1:
+        isos = ['T%04dQQQ' % i for i in range(254)] + ['TA', 'TAB']            # 254 x 16 + 10 + 12 = 4086
+        jols = ['t%04d' % i for i in range(256)]
+    else:
+        isos = [('T%04d' % i).ljust(124, 'Q') for i in range(30)] + ['T0030'.ljust(118, 'Q')]      # 30 x 132 + 126 = 4086
+        jols = [('t%04d' % i).ljust(64, 'q') for i in range(29)] + ['t0029'.ljust(32, 'q'), 't0030'.ljust(31, 'q')]   # 29 x 136 + 72 + 70 = 4086
+
+    def mk(iso, jol):
+        kw = {'iso_path': '/' + iso}
+        if cfg.get('rr'):
+            kw['rr_name'] = jol[:12]
+        if cfg.get('joliet'):
+            kw['joliet_path'] = '/' + jol
+        if cfg.get('udf'):
+            kw['udf_path'] = '/' + jol[:12]
+        return kw
+    for iso, jol in zip(isos, jols):
+        adds.append(['add_directory', mk(iso, jol)])
+    x, y = mk('ZZ', 'zz'), mk('ZY', 'zy')
+    last = adds[-1][1]
+    tail = [['add_directory', x], ['rm_directory', dict(x)], ['add_directory', dict(x)], ['add_directory', y], ['rm_directory', dict(y)],
+            ['rm_directory', dict(x)], ['rm_directory', dict(last)], ['add_directory', dict(last)], ['add_directory', dict(x)]]
+    return adds + tail, len(adds) - 1
+
+
 def chains_for(cfg, tier):
     """(name, [ops]) growth chains for a configuration."""
     out = []
@@ -583,6 +619,9 @@ def chains_for(cfg, tier):
     out.append(('dirs', chain_dirs(cfg, (280 if lvl == 1 else 24) if big else (24 if lvl > 1 else 60), 207 if lvl > 1 else 8, jlen=64, ulen=40)))
     if big and lvl > 1:
         out.append(('dirs-fifo', chain_dirs(cfg, 24, 207, order='fifo', jlen=64, ulen=40)))
+    if lvl > 1 or big:
+        ch, start = chain_pt_exact(cfg)
+        out.append(('pt-exact', ch, start))
     return out
 
 
@@ -664,6 +703,7 @@ def reopen_bases(cfg):
         bases.append(('ce', S(add_fp(cfg, 'LONGRR', '/', 'c1'), add_fp(cfg, 'A', '/', 'c1'), add_dir(cfg, 'D1'))))
         bases.append(('deep', [deep_chain_step(cfg, 9)] + S(add_fp(cfg, 'A', '/', 'c1'))))
     bases.append(('bigdir', [grow_dir_step(cfg, '/')] + S(add_fp(cfg, 'A', '/', 'c1'))))
+    bases.append(('dup2', S(['duplicate_pvd', {}], ['duplicate_pvd', {}], add_fp(cfg, 'A', '/', 'c1'), add_dir(cfg, 'D1'))))
     bases.append(('divergent', S(add_fp(cfg, 'B', '/', 'c1', 'jonly'), add_fp(cfg, 'A', '/', 'c1', 'uonly'), add_dir(cfg, 'E1', 'iso'),
                                  add_fp(cfg, 'AB', '/', 'c1', 'iso'))))
     out = []
@@ -716,6 +756,8 @@ def sigma7(model, profile='quick'):
         cand.append(mk + [['add_hard_link', {'udf_old_path': '/a', 'udf_new_path': '/d1/a'}]])
     add(['add_eltorito', {'bootfile_path': '/A.;1'}])
     add(['add_eltorito', {'bootfile_path': '/B.;1'}])
+    # two boot entries that load the same file (one step, to stay inside the depth bound)
+    cand.append([['add_eltorito', {'bootfile_path': '/A.;1'}], ['add_eltorito', {'bootfile_path': '/A.;1'}]])
     add(['rm_eltorito', {}])
     for op in removal_ops(model):
         add(op)
